@@ -2,7 +2,7 @@
    is_derive (fun e => W (I1 (c(e)), I2 (c(e)), I3 (c(e)))) e0 (sum_k 2 S_k dIkdC[m]),  H : 0 < I3 (c(e0)). *)
 From Coq Require Import Reals Lra Psatz.
 From Coquelicot Require Import Coquelicot.
-From EFP Require Import C18_tac.
+From EFModel Require Import C18_tac.
 Open Scope R_scope.
 
 Ltac pos_from H := first [ exact H | eapply Rlt_le_trans; [ exact H | right; ring ] ].
